@@ -43,3 +43,46 @@ prop(
     assumptions=["16 shards keyed by info_hash[0] are modelled as one association list (a partition of one map)",
                  "sequential histories only (concurrency is C04)"],
 )
+
+STORE_NONTRIV = ["small->large", "large->small(stop)", "large->small(clean)", "halves-branch", "re-announce"]
+
+prop(
+    "C02",
+    module="Aquatic.Props.C02",
+    technique="Lean 4 proof over all lists, limits and in-range random draws + relational differential check (exists draws) against the real stores",
+    runs=[dict(harness="udpstore", driver="store", quick=dict(cases=400, maxops=60), thorough=dict(cases=20000, maxops=160)),
+          dict(harness="httpstore", driver="store", quick=dict(cases=400, maxops=60), thorough=dict(cases=20000, maxops=160))],
+    nontrivial=["halves-branch", "offset-choices>1", "large-all-branch", "small->large"],
+    level_text="Theorems for every key list, limit and every in-range pair of random draws: the heap selection (UDP/HTTP), the inline selection and the WebTorrent selection never underflow, return duplicate-free stored keys other than the requester, at most the clamped limit, everything when it fits and at least limit-1 (exactly limit for WebTorrent) otherwise; clamps proved separately; announce-level corollary from the store refinement. Tie: each peer list the real stores return must equal the model's output for SOME in-range draws and satisfy the reference's bounds.",
+    level_note="Trusted: Lean kernel; model fidelity by sampled differential runs; rand's random_range contract (value in the half-open range).",
+    design_ref="§8 C02",
+    assumptions=["rng.random_range(a..b) returns a value in [a, b)"],
+)
+
+prop(
+    "C07",
+    module="Aquatic.Props.C07",
+    extra_modules=["Aquatic.Props.Store"],
+    technique="Lean 4 refinement proof (shared with C01, capacity 4, HTTP cleaning variant) + differential correspondence against the real HTTP TorrentMaps",
+    runs=[dict(harness="httpstore", driver="store", quick=dict(cases=600, maxops=60), thorough=dict(cases=40000, maxops=160))],
+    nontrivial=STORE_NONTRIV + ["scrape-truncated"],
+    level_text="Machine-checked refinement: every history on the model of the HTTP two-representation store answers like the reference tracker (counts exclude the announcer, scrape = BTreeMap over the first max_scrape_torrents hashes each once, empty torrents dropped by the next clean), no panic outcome; tied to the source by replaying generated histories on the real aquatic_http TorrentMaps (reached through the verif-hooks re-export and clock override).",
+    level_note="Trusted: Lean kernel; hand-written model checked by sampled differential runs; extracted SMALL_PEER_MAP_CAPACITY (http); hooks H1 (re-export, torrent count accessor) and H3 (clock override).",
+    design_ref="§8 C07",
+    assumptions=["one swarm worker (sharding across workers is C16)"],
+)
+
+prop(
+    "C10",
+    module="Aquatic.Props.C10",
+    extra_modules=["Aquatic.Props.Store"],
+    technique="Lean 4 proof (deadline arithmetic, clean = filter in both representations, refinement transport) + boundary differential runs (clean at d-1, d, d+1)",
+    runs=[dict(harness="timeunit", driver="time", quick=dict(cases=3000), thorough=dict(cases=300000)),
+          dict(harness="udpstore", driver="store", quick=dict(cases=300, maxops=60), thorough=dict(cases=20000, maxops=160)),
+          dict(harness="httpstore", driver="store", quick=dict(cases=300, maxops=60), thorough=dict(cases=20000, maxops=160))],
+    nontrivial=["t=d-1", "t=d", "t=d+1", "u32-overflow-region", "cln-dropped-torrent", "large->small(clean)"],
+    level_text="Theorems: ValidUntil arithmetic (deadline = now + age exactly when representable, valid iff clock < deadline; full statement, its partial form and a negation witness for the one recorded edge), a cleaning pass keeps exactly the unexpired entries in both representations with an exact seeder counter, and the reference-level clauses (never earlier, gone at/after the deadline, re-announce refreshes) transported to the UDP and HTTP stores by the refinement theorem. Tie: ValidUntil::new_with_now/valid on boundary triples, store histories that clean one second before / at / after stored deadlines.",
+    level_note="Trusted: Lean kernel; model fidelity by sampled differential runs; WebTorrent store and offer expiry are covered under C08/C09; the socket workers' refresh of the time sample is read as 'the handling worker's current time sample'.",
+    design_ref="§8 C10",
+    assumptions=["the clock is the whole-second u32 `SecondsSinceServerStart`"],
+)
